@@ -268,10 +268,9 @@ theorem skipStatus_iff (st : Int) :
 /-! ### one header, the body -/
 
 theorem checkHeader_iff (canon : String → String) (w : Bool) (hdrs : List (String × String)) (h : Hdr)
-    (h1 : hdrDecodedNil canon hdrs h = false) (h2 : hdrWriteOnly canon hdrs h = false) :
+    (h1 : hdrDecodedNil canon hdrs h = false) :
     checkHeader canon w hdrs h = none ↔ HeaderOK canon w hdrs h := by
   unfold checkHeader HeaderOK hdrDecodedNil at *
-  unfold hdrWriteOnly at h2
   unfold present at *
   cases hl : lookup (canon h.name) hdrs with
   | none =>
@@ -280,17 +279,15 @@ theorem checkHeader_iff (canon : String → String) (w : Bool) (hdrs : List (Str
     cases hs : h.schema with
     | none => simp
     | some s =>
-      simp only [hl, hs, Option.isSome_some, Bool.true_and] at h1 h2
+      simp only [hl, hs, Option.isSome_some, Bool.true_and] at h1
       cases hd : h.dec with
       | err => simp [specValue]
       | nil => simp [hd] at h1
       | val v =>
-        simp only [hd] at h2
-        have e1 := visit_plain_eq_asrep w v s h2
         have e2 := visit_asrep_eq_satRepB w v s
         have e3 := satRepB_iff w v s
         simp only [Option.isSome_some, if_true, specValue, Option.some.injEq, forall_eq', exists_eq_left']
-        rw [e1, e2]
+        rw [e2]
         cases hb : satRepB w v s
         · simp [← e3, hb]
         · simp [← e3, hb]
